@@ -285,4 +285,452 @@ example : valueAsDefault exMods [exClass] lower "3 MS".toList = .absent := by de
 example : check exMods [exClass] lower true "3 MS".toList = [.unitsInvalid] := by decide
 example : check exMods [exClass] lower true "3".toList = [.unitsMissing] := by decide
 
+
+/-! ## growth: the vocabulary condition `UnitsDistinct`, closed accept/reject theorems, rational semantics -/
+
+/-- the well-formedness condition as a proposition -/
+structure UnitsDistinct (mods : List Modifier) (c : UnitClass) (fold : Str → Str) : Prop where
+  functional : Functional (deriveClass mods c)
+  nonempty : ∀ d ∈ deriveClass mods c, d.key ≠ [] ∧ d.key ≠ fold []
+  nameFixed : ∀ d ∈ deriveClass mods c, isSymD c d = false → fold d.key = d.key
+  symApart : ∀ a ∈ deriveClass mods c, ∀ b ∈ deriveClass mods c,
+    isSymD c a = true → isSymD c b = false → fold a.key ≠ b.key
+
+theorem unitsDistinct_iff (mods : List Modifier) (c : UnitClass) (fold : Str → Str) :
+    unitsDistinct mods c fold = true ↔ UnitsDistinct mods c fold := by
+  simp only [unitsDistinct, Bool.and_eq_true, List.all_eq_true, Bool.or_eq_true, bne_iff_ne, ne_eq,
+    beq_iff_eq, Bool.not_eq_eq_eq_not, Bool.not_true]
+  constructor
+  · rintro ⟨⟨⟨h1, h2⟩, h3⟩, h4⟩
+    refine ⟨?_, h2, ?_, ?_⟩
+    · intro a ha b hb hk
+      rcases h1 a ha b hb with h | ⟨hu, hm⟩
+      · exact absurd hk h
+      · cases a; cases b; simp_all
+    · intro d hd hs
+      rcases h3 d hd with h | h
+      · rw [hs] at h; cases h
+      · exact h
+    · intro a ha b hb hsa hsb
+      rcases h4 a ha with h | h
+      · rw [hsa] at h; cases h
+      · rcases h b hb with h' | h'
+        · rw [hsb] at h'; cases h'
+        · exact h'
+  · intro h
+    refine ⟨⟨⟨?_, h.nonempty⟩, ?_⟩, ?_⟩
+    · intro a ha b hb
+      by_cases hk : a.key = b.key
+      · right; have := h.functional a ha b hb hk; subst this; exact ⟨rfl, rfl⟩
+      · left; exact hk
+    · intro d hd
+      cases hs : isSymD c d with
+      | true => left; rfl
+      | false => right; exact h.nameFixed d hd hs
+    · intro a ha
+      cases hsa : isSymD c a with
+      | false => left; rfl
+      | true =>
+        right
+        intro b hb
+        cases hsb : isSymD c b with
+        | true => left; rfl
+        | false => right; exact h.symApart a ha b hb hsa hsb
+
+instance (mods : List Modifier) (c : UnitClass) (fold : Str → Str) : Decidable (UnitsDistinct mods c fold) :=
+  decidable_of_iff _ (unitsDistinct_iff mods c fold)
+
+/-- the unit text is a spelling of the class: a symbol unit's spelling exactly as derived, or a name
+unit's spelling after case folding -/
+def Accepts (mods : List Modifier) (c : UnitClass) (fold : Str → Str) (σ : Str) : Prop :=
+  (∃ d ∈ deriveClass mods c, isSymD c d = true ∧ d.key = σ) ∨
+  (∃ d ∈ deriveClass mods c, isSymD c d = false ∧ d.key = fold σ)
+
+/-- a text that is no spelling of the class is not found (no condition on the class) -/
+theorem lookup_none_of_not_accepts (mods : List Modifier) (c : UnitClass) (fold : Str → Str) (σ : Str)
+    (h : ¬ Accepts mods c fold σ) : lookupClass mods c fold σ = none := by
+  have hfold : ∀ d2, getKey (deriveClass mods c) (fold σ) = some d2 → isSymD c d2 = true := by
+    intro d2 h2
+    obtain ⟨m2, k2⟩ := getKey_mem _ _ _ h2
+    cases hs : isSymD c d2 with
+    | true => rfl
+    | false => exact absurd (Or.inr ⟨d2, m2, hs, k2⟩) h
+  have hex : ∀ d, getKey (deriveClass mods c) σ = some d → isSymD c d = false := by
+    intro d h1
+    obtain ⟨m1, k1⟩ := getKey_mem _ _ _ h1
+    cases hs : isSymD c d with
+    | false => rfl
+    | true => exact absurd (Or.inl ⟨d, m1, hs, k1⟩) h
+  simp only [lookupClass]
+  cases h1 : getKey (deriveClass mods c) σ with
+  | none =>
+    cases h2 : getKey (deriveClass mods c) (fold σ) with
+    | none => rfl
+    | some d2 => have := hfold d2 h2; simp only [isSymD] at this; simp [this]
+  | some d =>
+    have h1' := hex d h1
+    simp only [isSymD] at h1'
+    cases h2 : getKey (deriveClass mods c) (fold σ) with
+    | none => simp [h1']
+    | some d2 => have := hfold d2 h2; simp only [isSymD] at this; simp [h1', this]
+
+theorem lookup_name (mods : List Modifier) (c : UnitClass) (fold : Str → Str)
+    (hD : UnitsDistinct mods c fold) (d : Derived) (hd : d ∈ deriveClass mods c)
+    (hs : isSymD c d = false) (σ : Str) (hσ : fold σ = d.key) : lookupClass mods c fold σ = some d := by
+  apply lookup_name_any_case mods c fold σ d
+  · rw [hσ]; exact getKey_of_mem _ hD.functional d hd
+  · exact hs
+  · intro x hx
+    obtain ⟨mx, kx⟩ := getKey_mem _ _ _ hx
+    cases hsx : isSymD c x with
+    | false => exact hsx
+    | true => exact absurd (by rw [kx, hσ]) (hD.symApart x mx d hd hsx hs)
+
+theorem lookup_sym (mods : List Modifier) (c : UnitClass) (fold : Str → Str)
+    (hD : UnitsDistinct mods c fold) (d : Derived) (hd : d ∈ deriveClass mods c)
+    (hs : isSymD c d = true) : lookupClass mods c fold d.key = some d :=
+  lookup_symbol_exact mods c fold d.key d (getKey_of_mem _ hD.functional d hd) hs
+
+/-- **Validation lookup = the property's acceptance rule.** In a well-formed class a unit text is found
+exactly when it is a symbol spelling as derived or folds to a name spelling. -/
+theorem lookup_iff_accepts (mods : List Modifier) (c : UnitClass) (fold : Str → Str)
+    (hD : UnitsDistinct mods c fold) (σ : Str) :
+    (lookupClass mods c fold σ).isSome = true ↔ Accepts mods c fold σ := by
+  constructor
+  · intro h
+    apply Classical.byContradiction
+    intro hn
+    rw [lookup_none_of_not_accepts mods c fold σ hn] at h
+    cases h
+  · rintro (⟨d, hd, hs, rfl⟩ | ⟨d, hd, hs, hk⟩)
+    · rw [lookup_sym mods c fold hD d hd hs]; rfl
+    · rw [lookup_name mods c fold hD d hd hs σ hk.symm]; rfl
+
+/-- side hypothesis of `bare_number`: nothing is spelled by the empty text -/
+theorem distinct_no_empty_spelling (mods : List Modifier) (c : UnitClass) (fold : Str → Str)
+    (hD : UnitsDistinct mods c fold) : lookupClass mods c fold [] = none := by
+  apply lookup_none_of_not_accepts
+  rintro (⟨d, hd, _, hk⟩ | ⟨d, hd, _, hk⟩)
+  · exact (hD.nonempty d hd).1 hk
+  · exact (hD.nonempty d hd).2 hk
+
+/-- **A bare number draws only the missing-unit warning** (closed: classes satisfying the condition). -/
+theorem bare_number_closed (mods : List Modifier) (classes : List UnitClass) (fold : Str → Str)
+    (numeric : Bool) (ext : Str) (hc : classes ≠ []) (hb : ' ' ∉ ext) (hn : isNumeric ext = true)
+    (hD : ∀ c ∈ classes, UnitsDistinct mods c fold) :
+    check mods classes fold numeric ext = [.unitsMissing] :=
+  bare_number mods classes fold numeric ext hc hb hn
+    (fun c hcm => distinct_no_empty_spelling mods c fold (hD c hcm))
+
+/-! ### splitting at the last blank -/
+
+theorem idxOf?_blank (b r : Str) (hb : ' ' ∉ b) : (b ++ ' ' :: r).idxOf? ' ' = some b.length := by
+  induction b with
+  | nil => simp [List.idxOf?, List.findIdx?_cons]
+  | cons x xs ih =>
+    have hx : x ≠ ' ' := fun e => hb (by simp [e])
+    have hxs : ' ' ∉ xs := fun h => hb (by simp [h])
+    have ih' := ih hxs
+    simp only [List.idxOf?] at ih' ⊢
+    simp [List.findIdx?_cons, hx, ih']
+
+theorem rpartition_append (a b : Str) (hb : ' ' ∉ b) : rpartitionBlank (a ++ ' ' :: b) = (a, b) := by
+  unfold rpartitionBlank
+  have hr : (a ++ ' ' :: b).reverse = b.reverse ++ ' ' :: a.reverse := by simp
+  have hb' : ' ' ∉ b.reverse := by simpa using hb
+  simp only [hr, idxOf?_blank _ _ hb']
+  have h1 : List.drop (b.reverse.length + 1) (b.reverse ++ ' ' :: a.reverse) = a.reverse := by
+    rw [List.drop_append]; simp
+  have h2 : List.take b.reverse.length (b.reverse ++ ' ' :: a.reverse) = b.reverse := by
+    rw [List.take_append]; simp [List.take_of_length_le]
+  rw [h1, h2]
+  simp
+
+/-! ### the class loop of `_get_tag_units_portion` -/
+
+theorem go_skip (mods : List Modifier) (fold : Str → Str) (value units : Str)
+    (pre rest : List UnitClass) (ci : Nat)
+    (h : ∀ c' ∈ pre, lookupClass mods c' fold units = none ∧ lookupClass mods c' fold value = none) :
+    unitsPortion.go mods fold value units ci (pre ++ rest) =
+      unitsPortion.go mods fold value units (ci + pre.length) rest := by
+  induction pre generalizing ci with
+  | nil => rfl
+  | cons p ps ih =>
+    obtain ⟨h1, h2⟩ := h p (by simp)
+    simp only [List.cons_append, unitsPortion.go, h1, h2]
+    rw [ih (ci + 1) (fun c' hc' => h c' (by simp [hc']))]
+    congr 1
+    simp only [List.length_cons]; omega
+
+theorem go_none (mods : List Modifier) (fold : Str → Str) (value units : Str) (cs : List UnitClass) (ci : Nat)
+    (h : ∀ c' ∈ cs, lookupClass mods c' fold units = none ∧ lookupClass mods c' fold value = none) :
+    unitsPortion.go mods fold value units ci cs = none := by
+  have := go_skip mods fold value units cs [] ci h
+  simpa [unitsPortion.go] using this
+
+theorem deriveUnit_unit (mods : List Modifier) (i : Nat) (u : UnitDef) (x : Derived)
+    (hx : x ∈ deriveUnit mods i u) : x.unit = i := by
+  simp only [deriveUnit, List.mem_flatMap, List.mem_cons, List.mem_map] at hx
+  obtain ⟨s, _, (rfl | ⟨m, _, rfl⟩)⟩ := hx <;> rfl
+
+theorem deriveUnit_sub (mods : List Modifier) (c : UnitClass) (i : Nat) (u : UnitDef)
+    (hu : c.units[i]? = some u) : ∀ d ∈ deriveUnit mods i u, d ∈ deriveClass mods c := by
+  intro d hd
+  have := go_complete mods c.units 0 [] i u hu d (by simpa using hd)
+  simpa [deriveClass] using this
+
+/-- spelling of an optional prefix -/
+def pfx (mo : Option Modifier) : Str := (mo.map (·.name)).getD []
+
+/-- the derived entry of base spelling `s` of unit `i` with optional permitted prefix `mo` -/
+def entry (i : Nat) (s : Str) (mo : Option Modifier) : Derived := ⟨pfx mo ++ s, i, mo.map (·.factor)⟩
+
+theorem entry_mem (mods : List Modifier) (i : Nat) (u : UnitDef) (s : Str) (hs : s ∈ baseSpellings u)
+    (mo : Option Modifier) (hmo : ∀ m, mo = some m → m ∈ modifiersFor mods u) :
+    entry i s mo ∈ deriveUnit mods i u := by
+  cases mo with
+  | none => simpa [entry, pfx] using deriveUnit_base mods i u s hs
+  | some m => simpa [entry, pfx] using deriveUnit_prefixed mods i u s m hs (hmo m rfl)
+
+/-- the unit's own table yields the prefix factor of an accepted spelling -/
+theorem own_factor_closed (mods : List Modifier) (c : UnitClass) (fold : Str → Str)
+    (hD : UnitsDistinct mods c fold) (i : Nat) (u : UnitDef) (hu : c.units[i]? = some u)
+    (d : Derived) (hd : d ∈ deriveUnit mods i u) (σ : Str)
+    (hσ : if u.isSymbol then σ = d.key else fold σ = d.key) :
+    ownFactor mods i u fold σ = some d.modFactor := by
+  have hsub := deriveUnit_sub mods c i u hu
+  have hfun : Functional (deriveUnit mods i u).reverse := by
+    intro a ha b hb hk
+    exact hD.functional a (hsub a (by simpa using ha)) b (hsub b (by simpa using hb)) hk
+  by_cases hsy : u.isSymbol = true
+  · simp only [hsy, ↓reduceIte] at hσ
+    subst hσ
+    unfold ownFactor
+    simp only [getKey_of_mem _ hfun d (by simpa using hd)]
+  · have hsy' : u.isSymbol = false := by simpa using hsy
+    simp only [hsy', Bool.false_eq_true, ↓reduceIte] at hσ
+    apply own_factor_of_key mods i u fold σ d hfun hd hσ
+    intro x hx
+    obtain ⟨mx, kx⟩ := getKey_mem _ _ _ hx
+    have mx' : x ∈ deriveUnit mods i u := by simpa using mx
+    have hxs : isSymD c x = false := by
+      simp [isSymD, deriveUnit_unit mods i u x mx', hu, hsy']
+    have hfix := hD.nameFixed x (hsub x mx') hxs
+    have : x.key = d.key := by rw [← hσ, ← kx, hfix]
+    rw [hD.functional x (hsub x mx') d (hsub d hd) this]
+
+/-- validation of an accepted text: no issue (no conversion factor needed) -/
+theorem accepted_check (mods : List Modifier) (classes : List UnitClass) (fold : Str → Str)
+    (numeric : Bool) (ext : Str) (m : Match) (hc : classes ≠ [])
+    (hm : unitsPortion mods classes fold ext = some m)
+    (hn : isNumeric m.value = true) (hsp : ' ' ∉ m.value) (hv : m.value ≠ []) :
+    check mods classes fold numeric ext = [] := by
+  have hne : classes.isEmpty = false := by
+    cases classes with
+    | nil => exact absurd rfl hc
+    | cons a b => rfl
+  have e2 : m.value.isEmpty = false := by
+    cases h : m.value with
+    | nil => exact absurd h hv
+    | cons a b => rfl
+  unfold check stripped
+  simp [hne, hm, e2, hsp, hn]
+
+theorem parse_nonempty (n : Str) (num : Dec) (hn : parseNumber n = some num) : n ≠ [] := by
+  rintro rfl
+  have : parseNumber [] = none := by decide
+  rw [this] at hn
+  cases hn
+
+/-- **Accepted, closed form (units written after the number).** In a class satisfying `UnitsDistinct`
+(and earlier classes of the tag not spelling the text): unit `u`, permitted prefix `mo` (or none), base
+spelling `s`, any case variant `σ` of prefix ++ `s` for a name unit, exactly that string for a symbol,
+numeric literal `n`. Remaining hypotheses: neither `σ` nor `n` contains a blank. -/
+theorem accept_closed (mods : List Modifier) (pre post : List UnitClass) (c : UnitClass)
+    (fold : Str → Str) (numeric : Bool) (hD : UnitsDistinct mods c fold)
+    (i : Nat) (u : UnitDef) (hu : c.units[i]? = some u) (hnp : u.isPrefix = false)
+    (s : Str) (hs : s ∈ baseSpellings u)
+    (mo : Option Modifier) (hmo : ∀ m, mo = some m → m ∈ modifiersFor mods u)
+    (σ : Str) (hσ : if u.isSymbol then σ = pfx mo ++ s else fold σ = pfx mo ++ s) (hσb : ' ' ∉ σ)
+    (n : Str) (num : Dec) (hn : parseNumber n = some num) (hnb : ' ' ∉ n)
+    (hpre : ∀ c' ∈ pre, lookupClass mods c' fold σ = none ∧ lookupClass mods c' fold n = none) :
+    unitsPortion mods (pre ++ c :: post) fold (n ++ ' ' :: σ) = some ⟨n, σ, pre.length, entry i s mo⟩ ∧
+    check mods (pre ++ c :: post) fold numeric (n ++ ' ' :: σ) = [] ∧
+    ∀ f, u.factor = some f →
+      valueAsDefault mods (pre ++ c :: post) fold (n ++ ' ' :: σ) =
+        .value (num.mul (f.mul ((mo.map (·.factor)).getD Dec.one))) := by
+  have hdU := entry_mem mods i u s hs mo hmo
+  have hdC := deriveUnit_sub mods c i u hu _ hdU
+  have hsym : isSymD c (entry i s mo) = u.isSymbol := by simp [isSymD, entry, hu]
+  have hlook : lookupClass mods c fold σ = some (entry i s mo) := by
+    by_cases hsy : u.isSymbol = true
+    · simp only [hsy, ↓reduceIte] at hσ
+      have := lookup_sym mods c fold hD _ hdC (by rw [hsym, hsy])
+      rw [hσ]; exact this
+    · have hsy' : u.isSymbol = false := by simpa using hsy
+      simp only [hsy', Bool.false_eq_true, ↓reduceIte] at hσ
+      exact lookup_name mods c fold hD _ hdC (by rw [hsym, hsy']) σ hσ
+  have hσne : σ ≠ [] := by
+    rintro rfl
+    rw [distinct_no_empty_spelling mods c fold hD] at hlook
+    cases hlook
+  have hnne := parse_nonempty n num hn
+  have hrp := rpartition_append n σ hσb
+  have hm : unitsPortion mods (pre ++ c :: post) fold (n ++ ' ' :: σ) =
+      some ⟨n, σ, pre.length, entry i s mo⟩ := by
+    unfold unitsPortion
+    simp only [hrp]
+    have : σ.isEmpty = false := by cases σ with | nil => exact absurd rfl hσne | cons _ _ => rfl
+    simp only [this, Bool.false_eq_true, ↓reduceIte]
+    rw [go_skip mods fold n σ pre (c :: post) 0 hpre]
+    simp [unitsPortion.go, hlook, entry, hu, hnp]
+  refine ⟨hm, ?_, ?_⟩
+  · exact accepted_check mods _ fold numeric _ _ (by simp) hm (by simp [isNumeric, hn]) hnb hnne
+  · intro f hf
+    have hown := own_factor_closed mods c fold hD i u hu _ hdU σ (by simpa [entry] using hσ)
+    exact (accepted_value mods _ fold numeric _ ⟨n, σ, pre.length, entry i s mo⟩ u c f num hm hnne
+      (by rw [hrp]; exact hnne) (by simp) (by simpa [entry] using hu) hf hn hnb _
+      (by simpa [entry] using hown)).1
+
+/-- **Accepted, closed form (prefix-type units: the unit text stands before the number).** Extra
+hypothesis: the number is not itself a unit spelling of the class. -/
+theorem accept_closed_prefix_unit (mods : List Modifier) (pre post : List UnitClass) (c : UnitClass)
+    (fold : Str → Str) (numeric : Bool) (hD : UnitsDistinct mods c fold)
+    (i : Nat) (u : UnitDef) (hu : c.units[i]? = some u) (hp : u.isPrefix = true)
+    (s : Str) (hs : s ∈ baseSpellings u)
+    (mo : Option Modifier) (hmo : ∀ m, mo = some m → m ∈ modifiersFor mods u)
+    (σ : Str) (hσ : if u.isSymbol then σ = pfx mo ++ s else fold σ = pfx mo ++ s) (hσb : ' ' ∉ σ)
+    (n : Str) (num : Dec) (hn : parseNumber n = some num) (hnb : ' ' ∉ n)
+    (hnc : lookupClass mods c fold n = none)
+    (hpre : ∀ c' ∈ pre, lookupClass mods c' fold σ = none ∧ lookupClass mods c' fold n = none) :
+    unitsPortion mods (pre ++ c :: post) fold (σ ++ ' ' :: n) = some ⟨n, σ, pre.length, entry i s mo⟩ ∧
+    check mods (pre ++ c :: post) fold numeric (σ ++ ' ' :: n) = [] ∧
+    ∀ f, u.factor = some f →
+      valueAsDefault mods (pre ++ c :: post) fold (σ ++ ' ' :: n) =
+        .value (num.mul (f.mul ((mo.map (·.factor)).getD Dec.one))) := by
+  have hdU := entry_mem mods i u s hs mo hmo
+  have hdC := deriveUnit_sub mods c i u hu _ hdU
+  have hsym : isSymD c (entry i s mo) = u.isSymbol := by simp [isSymD, entry, hu]
+  have hlook : lookupClass mods c fold σ = some (entry i s mo) := by
+    by_cases hsy : u.isSymbol = true
+    · simp only [hsy, ↓reduceIte] at hσ
+      have := lookup_sym mods c fold hD _ hdC (by rw [hsym, hsy])
+      rw [hσ]; exact this
+    · have hsy' : u.isSymbol = false := by simpa using hsy
+      simp only [hsy', Bool.false_eq_true, ↓reduceIte] at hσ
+      exact lookup_name mods c fold hD _ hdC (by rw [hsym, hsy']) σ hσ
+  have hσne : σ ≠ [] := by
+    rintro rfl
+    rw [distinct_no_empty_spelling mods c fold hD] at hlook
+    cases hlook
+  have hnne := parse_nonempty n num hn
+  have hrp := rpartition_append σ n hnb
+  have hm : unitsPortion mods (pre ++ c :: post) fold (σ ++ ' ' :: n) =
+      some ⟨n, σ, pre.length, entry i s mo⟩ := by
+    unfold unitsPortion
+    simp only [hrp]
+    have : n.isEmpty = false := by cases n with | nil => exact absurd rfl hnne | cons _ _ => rfl
+    simp only [this, Bool.false_eq_true, ↓reduceIte]
+    rw [go_skip mods fold σ n pre (c :: post) 0 (fun c' hc' => (hpre c' hc').symm)]
+    simp [unitsPortion.go, hlook, hnc, entry, hu, hp]
+  refine ⟨hm, ?_, ?_⟩
+  · exact accepted_check mods _ fold numeric _ _ (by simp) hm (by simp [isNumeric, hn]) hnb hnne
+  · intro f hf
+    have hown := own_factor_closed mods c fold hD i u hu _ hdU σ (by simpa [entry] using hσ)
+    exact (accepted_value mods _ fold numeric _ ⟨n, σ, pre.length, entry i s mo⟩ u c f num hm hnne
+      (by rw [hrp]; exact hσne) (by simp) (by simpa [entry] using hu) hf hn hnb _
+      (by simpa [entry] using hown)).1
+
+/-- **Rejected, closed form.** If the unit text is a spelling of none of the tag's classes (not a symbol
+spelling as derived, and not folding to a name spelling) — and the number part is not one either (it
+could be a prefix-type unit) — validation reports UNITS_INVALID and the converted value is absent. -/
+theorem reject_closed (mods : List Modifier) (classes : List UnitClass) (fold : Str → Str)
+    (numeric : Bool) (n σ : Str) (hc : classes ≠ []) (hσb : ' ' ∉ σ) (hnne : n ≠ [])
+    (hno : ∀ c ∈ classes, ¬ Accepts mods c fold σ) (hnn : ∀ c ∈ classes, ¬ Accepts mods c fold n) :
+    Issue.unitsInvalid ∈ check mods classes fold numeric (n ++ ' ' :: σ) ∧
+    valueAsDefault mods classes fold (n ++ ' ' :: σ) = .absent := by
+  have hrp := rpartition_append n σ hσb
+  apply unrecognised_unit mods classes fold numeric _ hc (by simp)
+  · unfold unitsPortion
+    simp only [hrp]
+    split
+    · rfl
+    · exact go_none mods fold n σ classes 0 (fun c hcm =>
+        ⟨lookup_none_of_not_accepts mods c fold σ (hno c hcm),
+         lookup_none_of_not_accepts mods c fold n (hnn c hcm)⟩)
+  · rw [hrp]; exact hnne
+
+/-! ### rational semantics -/
+
+/-- the rational number an exact decimal denotes: `m · 10^e` -/
+def Dec.toRat (a : Dec) : Rat := (a.m : Rat) * (10 : Rat) ^ a.e
+
+theorem ten_ne_zero : (10 : Rat) ≠ 0 := by decide
+
+theorem toRat_mul (a b : Dec) : Dec.toRat (a.mul b) = Dec.toRat a * Dec.toRat b := by
+  simp only [Dec.toRat, Dec.mul, Rat.intCast_mul, Rat.zpow_add ten_ne_zero]
+  grind
+
+theorem toRat_one : Dec.toRat Dec.one = 1 := by
+  simp [Dec.toRat, Dec.one]
+
+theorem toRat_scale (k : Int) (a : Dec) : Dec.toRat (Dec.scale k a) = (k : Rat) * Dec.toRat a := by
+  simp only [Dec.toRat, Dec.scale, Rat.intCast_mul, Rat.mul_assoc]
+
+example : Dec.toRat ⟨-1250, -3⟩ = -5 / 4 := by decide +kernel
+example : Dec.toRat ⟨3, 2⟩ = 300 := by decide +kernel
+
+/-- **The converted value is number × unit factor × prefix factor, in ℚ.** -/
+theorem value_rat (n f : Dec) (mf : Option Dec) :
+    Dec.toRat (n.mul (f.mul (mf.getD Dec.one))) =
+      Dec.toRat n * Dec.toRat f * (mf.map Dec.toRat).getD 1 := by
+  cases mf with
+  | none => simp [toRat_mul, toRat_one]
+  | some g => simp [toRat_mul, Rat.mul_assoc]
+
+/-- **Linear in the number, in ℚ:** `value (k·n) = k · value n`. -/
+theorem value_linear_rat (k : Int) (n g : Dec) :
+    Dec.toRat ((Dec.scale k n).mul g) = (k : Rat) * Dec.toRat (n.mul g) := by
+  rw [mul_scale, toRat_scale]
+
+/-- `accept_closed` read in ℚ: the value is defined and equals number × unit factor × prefix factor -/
+theorem accept_value_rat (mods : List Modifier) (pre post : List UnitClass) (c : UnitClass)
+    (fold : Str → Str) (hD : UnitsDistinct mods c fold)
+    (i : Nat) (u : UnitDef) (hu : c.units[i]? = some u) (hnp : u.isPrefix = false)
+    (s : Str) (hs : s ∈ baseSpellings u)
+    (mo : Option Modifier) (hmo : ∀ m, mo = some m → m ∈ modifiersFor mods u)
+    (σ : Str) (hσ : if u.isSymbol then σ = pfx mo ++ s else fold σ = pfx mo ++ s) (hσb : ' ' ∉ σ)
+    (n : Str) (num : Dec) (hn : parseNumber n = some num) (hnb : ' ' ∉ n)
+    (hpre : ∀ c' ∈ pre, lookupClass mods c' fold σ = none ∧ lookupClass mods c' fold n = none)
+    (f : Dec) (hf : u.factor = some f) :
+    ∃ v, valueAsDefault mods (pre ++ c :: post) fold (n ++ ' ' :: σ) = .value v ∧
+      Dec.toRat v = Dec.toRat num * Dec.toRat f * (mo.map fun m => Dec.toRat m.factor).getD 1 := by
+  refine ⟨_, (accept_closed mods pre post c fold true hD i u hu hnp s hs mo hmo σ hσ hσb n num hn hnb hpre).2.2 f hf, ?_⟩
+  rw [value_rat]
+  cases mo <;> rfl
+
+/-! ### non-vacuity of the closed theorems -/
+
+example : UnitsDistinct exMods exClass lower := by
+  rw [← unitsDistinct_iff]; decide
+/-- a class where the condition fails: a symbol `S` next to a name unit `s` -/
+example : ¬ UnitsDistinct [] ⟨[], [⟨['S'], true, false, false, none, []⟩, ⟨['s'], false, false, false, none, ['s', 's']⟩], none⟩ lower := by
+  rw [← unitsDistinct_iff]; decide
+example : (unitsPortion exMods [exClass] lower "3 MilliSeconds".toList).map (·.d.key) =
+    some "milliseconds".toList := by decide
+example : (unitsPortion exMods [exClass] lower "3 MilliSeconds".toList).map (·.d.modFactor) =
+    some (some ⟨1, -3⟩) := by decide
+example : Accepts exMods exClass lower "ms".toList := by
+  rw [← lookup_iff_accepts exMods exClass lower (by rw [← unitsDistinct_iff]; decide)]; decide
+example : ¬ Accepts exMods exClass lower "MS".toList := by
+  rw [← lookup_iff_accepts exMods exClass lower (by rw [← unitsDistinct_iff]; decide)]; decide
+/-- the hypotheses of `accept_closed` are jointly satisfiable -/
+example : check exMods [exClass] lower true "3 MilliSeconds".toList = [] :=
+  (accept_closed exMods [] [] exClass lower true (by rw [← unitsDistinct_iff]; decide) 0
+    ⟨"second".toList, false, true, false, some ⟨1, 0⟩, "seconds".toList⟩ rfl rfl
+    "seconds".toList (by simp [baseSpellings]) (some ⟨"milli".toList, false, true, ⟨1, -3⟩⟩)
+    (by intro m h; cases h; simp [modifiersFor, exMods])
+    "MilliSeconds".toList (by decide) (by decide) "3".toList ⟨3, 0⟩ (by decide) (by decide) (by simp)).2.1
+example : Dec.toRat (Dec.mul ⟨35, -1⟩ (Dec.mul ⟨1, 0⟩ ⟨1, -3⟩)) = 7 / 2000 := by decide +kernel
+
 end HedVerif.C11
